@@ -507,6 +507,13 @@ func (eng *Engine) mapKeysOf(mt *types.Map, sc *Script, out map[string]string) {
 	out["MN"] = fmt.Sprintf("(Array Int %s)", sc.idx())
 }
 
+func mapKeySort(sc *Script, mt *types.Map) string {
+	if isString(mt.Key()) {
+		return "Int"
+	}
+	return sc.sortOf(mt.Key())
+}
+
 // instrWrites: keys one instruction may write (calls: callee footprint).
 func (eng *Engine) instrWrites(ins ssa.Instruction, sc *Script, fn *ssa.Function) *footprintT {
 	fp := newFP()
@@ -519,14 +526,22 @@ func (eng *Engine) instrWrites(ins ssa.Instruction, sc *Script, fn *ssa.Function
 		eng.mapKeysOf(x.Map.Type().Underlying().(*types.Map), sc, tmp)
 		fp.absorb(tmp, !valueIsFresh(x.Map))
 	case *ssa.Next:
+		r := x.Iter.(*ssa.Range)
 		if x.IsString {
-			r := x.Iter.(*ssa.Range)
 			tmp["IT|"+fn.Name()+"."+r.Name()] = sc.idx()
+			fp.absorb(tmp, true)
+		} else if mt, ok := r.X.Type().Underlying().(*types.Map); ok {
+			tmp["IT|N:"+fn.Name()+"."+r.Name()] = sc.idx()
+			tmp["IT|V:"+fn.Name()+"."+r.Name()] = fmt.Sprintf("(Array %s Bool)", mapKeySort(sc, mt))
 			fp.absorb(tmp, true)
 		}
 	case *ssa.Range:
 		if isString(x.X.Type()) {
 			tmp["IT|"+fn.Name()+"."+x.Name()] = sc.idx()
+			fp.absorb(tmp, true)
+		} else if mt, ok := x.X.Type().Underlying().(*types.Map); ok {
+			tmp["IT|N:"+fn.Name()+"."+x.Name()] = sc.idx()
+			tmp["IT|V:"+fn.Name()+"."+x.Name()] = fmt.Sprintf("(Array %s Bool)", mapKeySort(sc, mt))
 			fp.absorb(tmp, true)
 		}
 	case *ssa.Alloc:
